@@ -21,7 +21,8 @@ being handed over — nothing needed is skipped; (`Exact.nodup`) nothing is appl
 
 Theorems.
 * `repl_inv_step`: every event, including every fault, preserves the invariant — for
-  `Good cx`: `makeFollows` after C12-fix-01, or followers with at most one table.
+  `Good cx`: (`makeFollows` after C12-fix-01, or followers with at most one table) and
+  `openRowStore` recovering the per-source MAXIMUM of offset file and filestore header.
   `repl_inv_step_fixed` / `repl_inv_step_partial` are the two instances; `repl_inv_run` lifts
   it to traces from the initial state.
 * `repl_quiescent_exact`: all nodes up, links up and drained, pipelines empty, leaders at the
@@ -31,6 +32,14 @@ Theorems.
 * `redundant_followers_equal`: followers of the same partition then reflect the same entries.
 * `repl_never_twice`, `repl_nothing_needed_skipped`: the two halves of "exactly once" in every
   reachable state, not only at quiescence.
+* `recovered_offset_covers_data`, `recovery_by_max_never_reapplies`: a table persists its offsets
+  in two records (filestore header, `offset` file; either may be the staler one); the per-source
+  maximum that `openRowStore` recovers is at or above every entry reflected in the recovered data,
+  so a restarted table (clean stop or crash image, whatever was flushed when) neither asks for nor
+  takes a persisted entry again.  `offset_file_wins_reapplies`: with "an existing offset file
+  wins" the witness trace is accepted and table 1 reflects entry 2 twice;
+  `max_recovery_keeps_once`: on HEAD the same schedule keeps it once, and a follower that asks
+  for less than it recovered is rejected.
 * `as_found_loses_entry`: for the code AS FOUND the full-strength statement is false: a
   follower with two tables, one flushed, restarted from a crash image taken before the other's
   first flush, announces the flushed table's offset as EarliestOffset; the leader starts the
@@ -79,7 +88,10 @@ theorem repl_inv_step {cx : Ctx} (hg : Good cx) {s s' : State} (hi : Inv cx s) (
   | recv f t l o fwd => exact inv_recv hi f t l o fwd h
   | msgdone f l o => exact inv_msgdone hi f l o h
   | apply f t l o k => exact inv_apply hi f t l o k h
-  | persist f t => exact inv_persist hi f t h
+  | persist f t data =>
+    cases data with
+    | true => exact inv_persist_data hi f t h
+    | false => exact inv_persist_offsets hi f t h
   | snapshot f => exact inv_snapshot hi f h
   | stopFollower f => exact inv_stopFollower hi f h
   | restoreSnapshot f => exact inv_restoreSnapshot hi f h
@@ -89,14 +101,14 @@ theorem repl_inv_step {cx : Ctx} (hg : Good cx) {s s' : State} (hi : Inv cx s) (
   | startLeader l => exact inv_startLeader hi l h
 
 /-- the code after C12-fix-01, any number of tables -/
-theorem repl_inv_step_fixed {cx : Ctx} (hf : cx.fixedEarliest = true) {s s' : State} (hi : Inv cx s)
-    (ev : Event) (h : step cx s ev = some s') : Inv cx s' :=
-  repl_inv_step (Or.inl hf) hi ev h
+theorem repl_inv_step_fixed {cx : Ctx} (hf : cx.fixedEarliest = true) (hr : cx.recoverMax = true)
+    {s s' : State} (hi : Inv cx s) (ev : Event) (h : step cx s ev = some s') : Inv cx s' :=
+  repl_inv_step ⟨Or.inl hf, hr⟩ hi ev h
 
 /-- the code as found, followers with at most one table -/
-theorem repl_inv_step_partial {cx : Ctx} (h1 : cx.tables.length ≤ 1) {s s' : State} (hi : Inv cx s)
-    (ev : Event) (h : step cx s ev = some s') : Inv cx s' :=
-  repl_inv_step (Or.inr h1) hi ev h
+theorem repl_inv_step_partial {cx : Ctx} (h1 : cx.tables.length ≤ 1) (hr : cx.recoverMax = true)
+    {s s' : State} (hi : Inv cx s) (ev : Event) (h : step cx s ev = some s') : Inv cx s' :=
+  repl_inv_step ⟨Or.inr h1, hr⟩ hi ev h
 
 /-- every state reached by an accepted trace satisfies the invariant -/
 theorem repl_inv_run {cx : Ctx} (hg : Good cx) (evs : List Event) {s s' : State} (hi : Inv cx s)
@@ -234,7 +246,7 @@ def crashTrace : List Event :=
    .msg 10 1 1, .recv 10 0 1 1 true, .recv 10 1 1 1 true, .msgdone 10 1 1,
    .msg 10 1 1, .recv 10 0 1 1 false, .recv 10 1 1 1 false, .msgdone 10 1 1,
    .apply 10 0 1 1 true, .apply 10 1 1 1 true,
-   .persist 10 0, .snapshot 10,
+   .persist 10 0 true, .snapshot 10,
    .cutLink 1 10, .stopFollower 10, .restoreSnapshot 10, .startFollower 10,
    .connect 1 10, .join 1 10 (fun t => if t = 0 then 1 else 0)]
 
@@ -262,13 +274,97 @@ theorem fixed_recovers_entry :
       [.route 1 1, .msg 10 1 1, .recv 10 0 1 1 false, .recv 10 1 1 1 true, .msgdone 10 1 1,
        .apply 10 1 1 1 true]) 1 = some ([1], true) := by decide
 
+/-! ## persisted offsets across restarts
+
+A table persists its offsets in two records: the header of the newest filestore (written with
+the data) and the `offset` file (rewritten only when a flush finds the memstore empty, i.e.
+after skipped entries).  Either may be the staler one. -/
+
+/-- the recovered offset (per-source maximum of both records) is at or above every offset whose
+    entry is reflected in the recovered data, and the recovered data is exactly what the table
+    wants at or below it, each once -/
+theorem recovered_offset_covers_data {cx : Ctx} {s : State} (hi : Inv cx s) (f : FId) (t : TId) (l : LId) :
+    (∀ o ∈ s.diskApps f t l, o ≤ max (s.offFile f t l) (s.diskOff f t l)) ∧
+    (s.diskApps f t l).Nodup ∧
+    (∀ e ∈ s.wal l, wants cx t (cx.part f) e.pt = true →
+      e.off ≤ max (s.offFile f t l) (s.diskOff f t l) → e.off ∈ s.diskApps f t l) := by
+  have hx := hi.recExact f t l
+  refine ⟨fun o ho => ?_, hx.nodup, fun e he hw hle => ?_⟩
+  · obtain ⟨_, _, _, h, _⟩ := (hx.mem o).mp ho
+    exact h
+  · exact (hx.mem e.off).mpr ⟨e, he, rfl, hle, hw⟩
+
+/-- recovery by per-source maximum never re-applies a persisted entry: after a (re)start from
+    the directory — whatever was flushed when, crash image or clean stop — every entry the
+    recovered data reflects is at or below the dedup offset the table starts with (so
+    `doFollowLeaders` drops it should it be sent again), and the leader is asked for nothing at or
+    below it -/
+theorem recovery_by_max_never_reapplies {cx : Ctx} (hg : Good cx) {s s' : State} (hi : Inv cx s)
+    (f : FId) (h : step cx s (.startFollower f) = some s') (t : TId) (l : LId) :
+    s'.memApps f t l = s.diskApps f t l ∧
+    (∀ o ∈ s'.memApps f t l, o ≤ s'.prior f t l) ∧
+    s'.startOff f t l = s'.prior f t l ∧
+    (s'.memApps f t l).Nodup := by
+  have hi' := inv_startFollower hg hi f h
+  simp only [step] at h
+  split at h
+  · simp only [Option.some.injEq] at h
+    subst h
+    have hrec : recOff cx s f t l = max (s.offFile f t l) (s.diskOff f t l) := by
+      simp [recOff, hg.2]
+    refine ⟨by simp, ?_, by simp, by simpa using (hi.exDisk f t l).nodup⟩
+    intro o ho
+    simp only [if_true] at ho ⊢
+    rw [hrec]
+    exact (recovered_offset_covers_data hi f t l).1 o ho
+  · cases h
+
+/-- table 0 keeps every entry, table 1 skips point 0 (a WHERE on a dim) -/
+def cxSkip : Ctx :=
+  { tables := [0, 1], part := fun _ => 0, pid := fun _ _ => 0,
+    whereOk := fun t pt => !(t == 1 && pt == 0), fixedEarliest := true }
+
+/-- the same with "an existing offset file wins, the filestore header is only a fallback" -/
+def cxWins : Ctx := { cxSkip with recoverMax := false }
+
+/-- entry 1 is skipped by table 1 while its memstore is empty and an idle flush writes the
+    offset file; entry 2 is stored and flushed to a filestore; the follower is stopped cleanly -/
+def staleOffsetFile : List Event :=
+  [.startFollower 10, .connect 1 10, .join 1 10 (fun _ => 0),
+   .insert 1 ⟨1, 0⟩, .route 1 1,
+   .msg 10 1 1, .recv 10 0 1 1 true, .recv 10 1 1 1 true, .msgdone 10 1 1,
+   .apply 10 0 1 1 true, .apply 10 1 1 1 false,
+   .persist 10 1 false,
+   .insert 1 ⟨2, 1⟩, .route 1 2,
+   .msg 10 1 2, .recv 10 0 1 2 true, .recv 10 1 1 2 true, .msgdone 10 1 2,
+   .msg 10 1 2, .recv 10 0 1 2 false, .recv 10 1 1 2 false, .msgdone 10 1 2,
+   .apply 10 0 1 2 true, .apply 10 1 1 2 true,
+   .persist 10 0 true, .persist 10 1 true,
+   .cutLink 1 10, .stopFollower 10, .startFollower 10, .connect 1 10]
+
+/-- "OFFSET FILE WINS": the restarted table 1 resumes from the stale offset 1, asks the leader
+    for entry 2 again — which its filestore already holds — and applies it a second time -/
+theorem offset_file_wins_reapplies :
+    outcome cxWins (staleOffsetFile ++
+      [.join 1 10 (fun t => if t = 0 then 2 else 1), .route 1 2,
+       .msg 10 1 2, .recv 10 0 1 2 false, .recv 10 1 1 2 true, .msgdone 10 1 2,
+       .apply 10 1 1 2 true]) 1 = some ([2, 2], true) := by decide
+
+/-- per-source maximum (HEAD): the table resumes from 2, nothing is sent again, and the model
+    refuses a follower that asks for less than it recovered or takes entry 2 once more -/
+theorem max_recovery_keeps_once :
+    outcome cxSkip (staleOffsetFile ++ [.join 1 10 (fun _ => 2)]) 1 = some ([2], true) ∧
+    (run cxSkip State.init (staleOffsetFile ++ [.join 1 10 (fun t => if t = 0 then 2 else 1)])).isNone = true ∧
+    (run cxSkip State.init (staleOffsetFile ++ [.join 1 10 (fun _ => 2), .route 1 2])).isNone = true := by
+  refine ⟨by decide, by decide, by decide⟩
+
 /-! ## non-vacuity -/
 
 /-- the hypothesis of the general theorems is satisfiable -/
-example : Good cxFixed := Or.inl rfl
+example : Good cxFixed := ⟨Or.inl rfl, rfl⟩
 example : ¬ Good cxFound := by
   intro h
-  rcases h with h | h
+  rcases h.1 with h | h
   · cases h
   · simp [cxFound] at h
 
